@@ -11,13 +11,17 @@ EXPECTED_FINDINGS = {
     "welcome-replay-accept-overwrites": "accepting the replayed welcome replaces the MLS state by the invitation's; the member can no longer decrypt (C16_witness_replay_accept)",
     "welcome-replay-decline-deactivates": "declining the replayed welcome sets the Active group Inactive (C16_witness_replay_decline)",
     "welcome-row-before-reject": "a rumor without id is refused with MissingRumorEventId after the Pending group row and relays were written (refused_welcome_effect)",
+    "accept-record-of-other-invitation": "accept_welcome keeps the record written by ANOTHER invitation to the same group id (accept_record_full_false)",
+    "welcome-foreign-creator-overwrites-record": "a welcome for a held MLS group id made by a non-member (new group with the same id) overwrites the Active group's record on process_welcome — name, nostr group id, Pending — and the real group's events are no longer routed (C16_witness_foreign_creator)",
+    "welcome-foreign-creator-replaces-mls": "… accepting it replaces the MLS state by the foreign group's",
+    "welcome-foreign-creator-deactivates": "… declining it sets the group Inactive",
 }
 
 def run(tier, seed, t0, H):
     n = 150 if tier == "quick" else 1500
     ob, facts, axioms, built = H.prelude(PROP, MODULE, tier)
     rule = ("corpus witnesses + seeded invitation histories on the recipient (memory or SQLite): one or two groups by two inviters, the invitation received under "
-            "wrapper ids 0–3 at random points incl. after further commits / renames / eviction + re-invitation, accept / decline in any order, id-less, structurally "
+            "wrapper ids 0–3 at random points incl. after further commits / renames / eviction + re-invitation, a welcome for the held MLS group id forged by a non-member, accept / decline in any order, id-less, structurally "
             "invalid, undecodable and misaddressed rumors, commits delivered or skipped, decrypt probes; recipient states none / pending / active / inactive. "
             "non-trivial = a history in which an invitation op met a group the recipient already held (pending, active or inactive); distinct by op list")
     failures, coverage = [], {}
@@ -62,6 +66,6 @@ def run(tier, seed, t0, H):
                     ["PARTIAL: `no_disturb` (full strength) is FALSE of the code and kept as a def with three witnesses; what is proved is no_disturb_partial / no_disturb_when_not_held",
                      "OpenMLS is abstract: an invitation is the (group id, post-commit token, epoch, member count, group data) its preview yields; `into_group` with replace_old_group overwrites the MLS group of that id; a welcome stays decodable after it was accepted (observed: key packages are not consumed) — all exercised by the correspondence run, not proved",
                      "group traffic is modelled only as far as the property needs it (a commit applies iff the member is in its parent state; a message decrypts iff the member is in the sender's state); other outcomes of process_message are compared as 'did not apply'",
-                     "welcomes for a held MLS group id crafted by a DIFFERENT creator (MlsGroup::new_with_group_id), rumors whose group data collides with another group's nostr id, and gift-wrap (kind 1059) handling are not generated by the harness",
+                     "rumors whose group data collides with ANOTHER held group's nostr id (refused by save_group's uniqueness check in the model) and gift-wrap (kind 1059) handling are not generated by the harness; welcomes for a held MLS group id by a different creator ARE (forge, via MlsGroup::new_with_group_id)",
                      "timestamps (processed_at) are not observed"],
                     checker, H.TRUSTED + [f"axioms actually used: {H.axiom_summary(axioms)}", "harness/src/invite.rs on top of harness/src/world.rs"])
